@@ -94,10 +94,10 @@ TEXT = {
   "technique": "Lean 4 theorem (per-call characterisation of state.json and the emitted actions) + differential correspondence check",
  },
  "C03": {
-  "level": "Theorem C03_holds: for every history with one configured key and a server that does not re-issue the last good number with other bytes, the C03 monitor "
+  "level": "Theorem C03_holds: for every history with one configured key the C03 monitor "
            "accepts the model trace - (a) from the success report of n on, n's artifact keeps exactly its bytes through every later call (installs of newer/older "
            "numbers while another is pending, re-installs of n, channel switches, rollbacks of others, restarts, damage elsewhere) until a different patch boots "
-           "successfully, n fails/crashes, n is rolled back, the release changes or n / the state files are damaged from outside; (b) whenever a call loses the selected "
+           "successfully, n fails/crashes, n is rolled back, the release changes, n / the state files are damaged from outside, or the server re-issues n with other bytes; (b) whenever a call loses the selected "
            "patch, the selection afterwards is that last good patch, or nothing if there is none. Invariants GoodD (last good record + bytes + validity of every record "
            "of n) and RelPS (how selection and last-good record may move), pushed through every patch-manager function, section and call. Same monitor on real traces.",
   "design_ref": "DESIGN.md section 3, C03",
